@@ -134,6 +134,8 @@ pub struct ConnCfg {
     pub iterate_params: bool,
     pub param_probe: Option<crate::shim::ParamProbe>,
     pub skip_iter: Vec<u8>,
+    /// (k, marker): the k-th command callback returns Err(marker) after doing its work
+    pub fail_after: Option<(usize, u64)>,
 }
 
 impl ConnCfg {
@@ -145,6 +147,7 @@ impl ConnCfg {
             iterate_params: true,
             param_probe: None,
             skip_iter: Vec::new(),
+            fail_after: None,
         }
     }
 }
@@ -298,6 +301,7 @@ pub fn run_conn(mut st: SimState, cfg: ConnCfg) -> Outcome {
     shim.iterate_params = cfg.iterate_params;
     shim.param_probe = cfg.param_probe;
     shim.skip_iter = cfg.skip_iter;
+    shim.fail_after = cfg.fail_after;
     let r = {
         let sh = &mut shim;
         let tr = sim.clone();
